@@ -18,7 +18,8 @@ RULE = ("every spec with <=5 atoms (6 for two-unit graphs) of all four universes
         "the component subgraphs in every order == labelled union (later wins) with coherent neighbour sets; composing the "
         "component subgraphs reproduces the graph; large graphs (a chain of n atoms with scrambled ids + ring + isolated atoms + a "
         "stereo/reaction unit, n around 127/128, 255/256, 300; thorough also 512, 1100): components, node components, compose of the "
-        "component subgraphs, a 2/3 induced subgraph.  distinct = (spec, subset, container) + (spec, cover) executions")
+        "component subgraphs, a 2/3 induced subgraph; two / three identical fragments (isomorphic pieces with their own descriptors and "
+        "stereo changes) composed in every order.  distinct = (spec, subset, container) + (spec, cover) executions")
 ASSUMPTIONS = ["compose receives lists/tuples (the statement says 'any iterable' for subgraph only)",
                "descriptor / stereo-change kept iff all of its atoms (placeholders excluded) lie in S"]
 BUDGET = {"quick": 600, "thorough": 1200}
@@ -55,6 +56,7 @@ def items(tier, seed):
     n = len(specs(tier))
     out = [{"lo": lo, "hi": min(n, lo + 4), "tier": tier} for lo in range(0, n, 4)]
     out += [{"large": sz, "kind": k, "tier": tier} for sz in LARGE[tier] for k in (MG, SMG, CRG, SCRG)]
+    out += [{"fragments": k, "tier": tier} for k in (MG, SMG, CRG, SCRG)]
     return out
 
 
@@ -80,6 +82,60 @@ def large_spec(kind, n):
     bonds += cb
     ast = [("Tetrahedral", (6000, 6001, 6002, 6003, 6004), 1)] if kind == SMG else []
     return U.mk(kind, atoms, bonds, astereo=ast)
+
+
+def _fragments(item, out):
+    """graphs that consist of two / three IDENTICAL fragments (same molecule, other identifiers; graphs compare and hash by
+    isomorphism, so identical pieces are 'equal' objects): composing separately built pieces, and composing the component
+    subgraphs in every order, must give the labelled union with the descriptors and stereo changes of EVERY piece"""
+    kind = item["fragments"]
+    oc = out["outcomes"]
+
+    def piece(off):
+        atoms = [(off, "C"), (off + 1, "H"), (off + 2, "F"), (off + 3, "Cl"), (off + 4, "Br")]
+        bonds = [(off, off + 1), (off, off + 2), (off, off + 3), (off, off + 4)]
+        kw = {}
+        t = (off, off + 1, off + 2, off + 3, off + 4)
+        if kind in (CRG, SCRG):
+            bonds[3] = (off, off + 4, "BROKEN")
+        if kind == SMG:
+            kw["astereo"] = [("Tetrahedral", t, 1)]
+        if kind == SCRG:
+            kw["achg"] = {off: {"BROKEN": ("Tetrahedral", t, 1), "FORMED": ("Tetrahedral", t, -1)}}
+        return U.mk(kind, atoms, bonds, **kw)
+
+    def V(clause, what):
+        out["viol"].append({"sig": f"C17/{E.SHORT[kind]}/identical-fragments/{clause}", "input": clause, "what": what, "item": item,
+                            "detail": None})
+
+    for k in (2, 3):
+        ms = [piece(10 * i) for i in range(k)]
+        exp = _drop_empty(RG.RefGraph.compose(kind, ms)).observe()
+        for order in itertools.permutations(range(k)):
+            out["evals"] += 1
+            out["distinct"] += 1
+            oc["identical-fragments"] = oc.get("identical-fragments", 0) + 1
+            try:
+                h = U.real_cls(kind).compose([U.build(ms[i]) for i in order])
+            except Exception as e:
+                V("compose-raised:" + type(e).__name__, f"compose of {k} identical fragments raised {e!r}")
+                continue
+            d = diff(norm(snap(h), drop_empty_changes=True), exp)
+            if d:
+                V("compose-pieces:" + "+".join(d), f"composing {k} separately built identical fragments (order {order}) differs from the "
+                                                   f"labelled union in {d}")
+            try:
+                comps = sorted(h.connected_components(), key=min)
+                if len(comps) != k:
+                    V("components", f"{len(comps)} components for {k} fragments")
+                h2 = type(h).compose([h.subgraph(sorted(c)) for c in (comps if order[0] == 0 else comps[::-1])])
+                d = diff(norm(snap(h2), drop_empty_changes=True), exp)
+                if d:
+                    V("compose-components:" + "+".join(d), f"composing the component subgraphs of {k} identical fragments differs from "
+                                                           f"the graph in {d}")
+            except Exception as e:
+                V("components-raised:" + type(e).__name__, f"{e!r}")
+    return out
 
 
 def _large(item, out):
@@ -156,6 +212,8 @@ def run_item(item):
     out = {"evals": 0, "distinct": 0, "outcomes": {}, "viol": [], "samples": []}
     if "large" in item:
         return _large(item, out)
+    if "fragments" in item:
+        return _fragments(item, out)
     oc = out["outcomes"]
     for m in specs(item["tier"])[item["lo"]:item["hi"]]:
         ids = list(m.atoms)
